@@ -6,8 +6,11 @@ sys.path.insert(0, V)
 from props import PROPS, NOT_APPLICABLE
 ids = [json.loads(l)["id"] for l in open(os.path.join(V, "properties.jsonl"))]
 checks = []
+hold = set()
+if os.path.exists(os.path.join(V, "tools", "unregistered.txt")):
+    hold = set(open(os.path.join(V, "tools", "unregistered.txt")).read().split())
 for pid in ids:
-    if pid not in PROPS or not PROPS[pid].get("registered", True):
+    if pid not in PROPS or not PROPS[pid].get("registered", True) or pid in hold:
         continue
     c = PROPS[pid]
     checks.append({
